@@ -736,7 +736,9 @@ impl Shared {
 		}
 	}
 	fn error(&self, op: &str, e: String) {
-		let class = if e.contains("MAP_FULL") || e.contains("NotEnoughSpace") || e.contains("MapFull") {
+		let class = if e.contains("resized while") {
+			"resize_with_open_reader"
+		} else if e.contains("MAP_FULL") || e.contains("NotEnoughSpace") || e.contains("MapFull") {
 			"mapfull"
 		} else if e.contains("corrupt") || e.contains("Corrupt") {
 			"corrupt"
@@ -939,6 +941,23 @@ impl<'a> WriterCtx<'a> {
 	}
 }
 
+/// (address, length) of the memory map of the environment's data file, from /proc/self/maps.
+/// mdb_env_set_mapsize() replaces this mapping; LMDB (and KV!Resize) require that no transaction
+/// is open in the process at that moment.
+fn map_region(data_file: &str) -> Option<(u64, u64)> {
+	let maps = std::fs::read_to_string("/proc/self/maps").ok()?;
+	for line in maps.lines() {
+		if line.ends_with(data_file) {
+			let range = line.split_whitespace().next()?;
+			let mut it = range.split('-');
+			let a = u64::from_str_radix(it.next()?, 16).ok()?;
+			let b = u64::from_str_radix(it.next()?, 16).ok()?;
+			return Some((a, b - a));
+		}
+	}
+	None
+}
+
 fn rng_of(seed: u64, salt: u64) -> StdRng {
 	SeedableRng::seed_from_u64(seed.wrapping_mul(0x9E37_79B9_7F4A_7C15).wrapping_add(salt))
 }
@@ -1038,7 +1057,8 @@ fn record(args: &Args) -> i32 {
 			return 2;
 		}
 	};
-	let sh = Arc::new(Shared::new(&dir));
+	let cdir = std::fs::canonicalize(&dir).map(|p| p.to_string_lossy().to_string()).unwrap_or(dir.clone());
+	let sh = Arc::new(Shared::new(&cdir));
 	let mut handles = vec![];
 	for w in 0..nwriters {
 		let (store, sh) = (store.clone(), sh.clone());
@@ -1104,11 +1124,12 @@ fn record(args: &Args) -> i32 {
 			obs
 		}));
 	}
-	// iterator: whole key spaces; the iterator (its read transaction) is held while commits go on
-	{
+	// iterators: whole key spaces; the iterator (its read transaction) is held while commits go on.
+	// The first one sometimes holds for longer than the resize waiter's polling period, the second scans quickly.
+	for it_no in 0..2u64 {
 		let (store, sh) = (store.clone(), sh.clone());
 		handles.push(std::thread::spawn(move || {
-			let mut rng = rng_of(seed, 8);
+			let mut rng = rng_of(seed, 8 + it_no);
 			let mut obs = vec![];
 			while !sh.stop.load(SeqCst) {
 				let sp = rng.gen_range(1, cfg.ns + 1);
@@ -1122,7 +1143,8 @@ fn record(args: &Args) -> i32 {
 						break;
 					}
 				};
-				let mode = rng.gen_range(0, 10);
+				let mode = if it_no == 0 { rng.gen_range(0, 10) } else { rng.gen_range(0, 6) };
+				let m1 = map_region(&sh.data_file);
 				let mut l = vec![];
 				let mut n = 0;
 				let r = loop {
@@ -1134,15 +1156,22 @@ fn record(args: &Args) -> i32 {
 					n += 1;
 					if mode < 5 {
 						std::thread::sleep(Duration::from_micros(rng.gen_range(50, 1500)));
-					} else if mode == 9 && n == 2 {
+					} else if mode >= 7 && n == 2 {
 						// long hold: longer than the resize waiter's polling period
-						std::thread::sleep(Duration::from_millis(rng.gen_range(150, 320)));
+						std::thread::sleep(Duration::from_millis(rng.gen_range(150, 400)));
 					}
 				};
-				if mode == 8 {
+				if mode == 6 {
 					std::thread::sleep(Duration::from_millis(rng.gen_range(20, 160)));
 				}
+				let m2 = map_region(&sh.data_file);
 				drop(it);
+				if let (Some(a), Some(b)) = (m1, m2) {
+					if a != b {
+						sh.error("iter", format!("map resized while an iterator (read transaction) was open: {:?} -> {:?}", a, b));
+						break;
+					}
+				}
 				match r {
 					Ok(()) => obs.push(json!({"k": "OutIter", "sp": sp, "res": pairs_json(&l), "lo": lo, "hi": hi})),
 					Err(e) => {
